@@ -204,19 +204,20 @@ theorem C13_union_param_iff_used (items : List Item) (a : Ast) (ha : Ast.ofItems
     name is in the index that the impl headers consult -/
 theorem C13_typedef_param_consistent (items : List Item) (a : Ast) (ha : Ast.ofItems items = .ok a)
     (hnd : (gnames (items.filterMap gitemOf)).Nodup) (t : Typedef) (ht : Item.typedef t ∈ items) :
-    a.isGeneric t.alias.unwrapArray.asStr = (t.target.isOpaque || a.isGeneric t.target.asStr) := by
+    a.isGeneric t.alias.unwrapArray.asStr =
+      (t.target.isOpaque || a.targetGeneric t.target) := by
   have hgen : a.generics = genericIndexOf (items.filterMap gitemOf) := by
     unfold Ast.ofItems at ha
     cases hc : ConstantIndex.new items with
     | panicAt f m => simp [hc] at ha
     | ok cs => simp only [hc, Out.bind_ok] at ha; cases ha; rfl
-  have hmem : (GItem.mk t.alias.unwrapArray.asStr t.target.isOpaque [t.target.asStr]) ∈ items.filterMap gitemOf :=
+  have hmem : (GItem.mk t.alias.unwrapArray.asStr t.target.isOpaque t.target.identRefs) ∈ items.filterMap gitemOf :=
     List.mem_filterMap.mpr ⟨_, ht, rfl⟩
   have hiff := C13_generic_iff_hit _ hnd _ hmem
   rw [← hgen] at hiff
-  simp only [GItem.hit, List.any_cons, List.any_nil, Bool.or_false] at hiff
   simp only [Ast.isGeneric]
   rw [Bool.eq_iff_iff]
-  simpa using hiff
+  cases htg : t.target <;>
+    simpa [GItem.hit, BasicType.identRefs, htg, BasicType.isOpaque, Ast.targetGeneric, Ast.isGeneric] using hiff
 
 end Fx.C13
